@@ -59,6 +59,7 @@ def main():
     if args[:1] == ['-j']:
         jobs = int(args[1])
         args = args[2:]
+    full = not args
     ids = args or sorted(os.listdir(os.path.join(ROOT, 'seeded')))
     ids = [i for i in ids if os.path.isdir(os.path.join(ROOT, 'seeded', i))]
     rows = []
@@ -67,11 +68,12 @@ def main():
             rows.append(r)
             print(json.dumps(r), flush=True)
     head = subprocess.run('git -C /repo rev-parse --short HEAD', shell=True, capture_output=True, text=True).stdout.strip()
-    with open(os.path.join(ROOT, 'seeded', 'STATUS.md'), 'w') as f:
+    with open(os.path.join(ROOT, 'seeded', 'STATUS.md') if full else os.devnull, 'w') as f:
         f.write(f'# Seeded changes re-validated against /repo {head}\n\n')
         f.write('| id | breaks | patch applies | pinned suite | demo exit (patched/unchanged) | checks (quick tier) |\n|---|---|---|---|---|---|\n')
         for r in rows:
-            f.write(f"| {r['id']} | {r['prop']} | {r.get('apply')} | {r.get('pytest', '-')} | {r.get('demo', '-')} | "
+            st = json.load(open(os.path.join(ROOT, 'seeded', r['id'], 'meta.json'))).get('status')
+            f.write(f"| {r['id']} | {r['prop']} | {r.get('apply')}{' (' + st.split(':')[0] + ')' if st else ''} | {r.get('pytest', '-')} | {r.get('demo', '-')} | "
                     f"{', '.join(k + ': ' + v for k, v in r.get('checks', {}).items()) or '-'} |\n")
     bad = [r for r in rows if r.get('apply') == 'ok' and any(v != 'VIOLATION' for v in r.get('checks', {}).values())]
     print('not detected:', [r['id'] for r in bad])
